@@ -50,6 +50,13 @@ def run(spec, profile=True):
         return out
     if profile:
         sys.setprofile(prof)
+    import signal
+
+    def _hang(signum, frame):
+        raise api.HarnessHang("the harness did not terminate within 120 CPU-seconds on this concrete input")
+
+    signal.signal(signal.SIGVTALRM, _hang)
+    signal.setitimer(signal.ITIMER_VIRTUAL, 120.0, 5.0)
     try:
         h.fn(**args)
         out["outcome"] = "ok"
@@ -61,6 +68,7 @@ def run(spec, profile=True):
         out["detail"] = "%s: %s" % (type(e).__name__, e)
         out["tb"] = traceback.format_exc()[-3000:]
     finally:
+        signal.setitimer(signal.ITIMER_VIRTUAL, 0)
         sys.setprofile(None)
     out["functions"] = sorted(funcs)
     if h.classify is not None and out["outcome"] == "violation":
